@@ -22,6 +22,19 @@
 (* sels[s] is the key the s-th selector picks from the object every value is *)
 (* (0: the whole value, `$`); two selectors with the same key select the     *)
 (* same subtree of the value -- in the specification two separate roots.     *)
+(*   "glob"   (Alpha = "glob") rules whose PATTERN reads the program's own   *)
+(*            variable g (`g`, `!g`, `g < 2`) and whose bodies assign it      *)
+(*            (`g = 0`, `g = 1`, `g++`): the truth value of such a pattern    *)
+(*            is a function of the whole history of the run, not of the      *)
+(*            element, and must be taken anew at every rule of every round   *)
+(* sform[s] is the FORM of the s-th selector expression (SelForms = "all"):  *)
+(* a path (`$.k`, `$["k"]`, `($.k)`), an array literal built from the member *)
+(* (`[$.k]`, `[$.k, $.k]`), a constant array literal (`[]`, `["k"]`, `[0]`,  *)
+(* `[1, 2]`) or a scalar literal: "the argument to -r can be any valid       *)
+(* expression" and the selected root is what that expression evaluates to.   *)
+(* mems[f][v][s] is what the path `$.k` of the s-th selector would select    *)
+(* from the value; files[f][v][s] = SelRoot(sform[s], mems[f][v][s]) is the  *)
+(* root the driver is handed.                                                *)
 (* paths[f] is the path given as the f-th file argument (numbered by first   *)
 (* occurrence).  A command line may name the same path several times: the    *)
 (* schedule has one file per ARGUMENT, so every occurrence is processed in   *)
@@ -29,12 +42,15 @@
 (* and "sim": RepeatFile).                                                   *)
 EXTENDS JqDriver
 
-CONSTANTS Fam, Alpha, MaxRules, MaxFiles, MaxVals, MaxArr, InputSel, NSel
+CONSTANTS Fam, Alpha, MaxRules, MaxFiles, MaxVals, MaxArr, InputSel, NSel,
+          SelForms          \* "dot": every selector is the path `$.k` (or `$`); "all": every form of FormSet
 
 VARIABLES nsel, cstage,     \* number of selectors; "rules" | "input": what the configuration phase may still add
           sels,             \* per selector the key it picks (0: the whole value)
-          paths             \* per file argument the path it names
-vars == <<dvars, nsel, cstage, sels, paths>>
+          paths,            \* per file argument the path it names
+          sform,            \* per selector the form of its expression
+          mems              \* mems[f][v][s]: what the path of selector s selects from the value (files holds the roots)
+vars == <<dvars, nsel, cstage, sels, paths, sform, mems>>
 
 \* ---- rules
 RW(k, p, b, w) == [kind |-> k, haspat |-> p # "none", pat |-> p, body |-> b, w |-> w]
@@ -58,11 +74,21 @@ CellAlphabet ==
   {RW("P", p, "print", w) : p \in {"none", "memb", "nmemb", "self"}, w \in {"none", "sd", "sf", "sm"}} \cup
   {RW("P", "nmemb", "next", "sm"), RW("P", "none", "exit", "sd"), RW("P", "memb", "bare", "none")} \cup
   {RW("E", "none", "print", w) : w \in {"none", "sd"}} \cup {RW("E", "none", "bare", "none")}
-Alphabet == IF Alpha = "core" THEN CoreAlphabet ELSE IF Alpha = "cells" THEN CellAlphabet ELSE FullAlphabet
+\* rules about the program's own variable g: patterns that read it (gv `g`, ngv `!g`, glt `g < 2`), bodies that
+\* assign it after printing (g0 `g = 0`, g1 `g = 1`, ginc `g++`), next to element-driven patterns that switch it
+GlobAlphabet ==
+  {RW("P", p, "print", w) : p \in {"gv", "ngv", "glt"}, w \in {"none", "g0", "g1", "ginc"}} \cup
+  {RW("P", p, "print", w) : p \in {"none", "self", "memb"}, w \in {"g0", "g1", "ginc"}} \cup
+  {RW("P", "gv", "next", "g0"), RW("P", "glt", "next", "ginc"), RW("P", "gv", "bare", "none"), RW("P", "glt", "exit", "none"),
+   RW("P", "none", "print", "none")} \cup
+  {RW(k, "none", "print", w) : k \in {"BF", "EF"}, w \in {"g0", "g1", "ginc"}} \cup
+  {RW("B", "none", "print", "g1"), RW("E", "none", "print", "none")}
+Alphabet == IF Alpha = "core" THEN CoreAlphabet ELSE IF Alpha = "cells" THEN CellAlphabet
+            ELSE IF Alpha = "glob" THEN GlobAlphabet ELSE FullAlphabet
 
 \* a rule without a body cannot be written directly before a pattern rule without a pattern, nor before a
 \* pattern that begins with the operator `!` (the grammar reads on: a body, a binary operator)
-CanFollow(rs, r) == (Len(rs) > 0 /\ rs[Len(rs)].body = "bare") => ~(r.kind = "P" /\ r.pat \in {"none", "nmemb"})
+CanFollow(rs, r) == (Len(rs) > 0 /\ rs[Len(rs)].body = "bare") => ~(r.kind = "P" /\ r.pat \in {"none", "nmemb", "ngv"})
 
 SigOf(r) == IF r.body \in {"next", "exit"} THEN r.body ELSE "none"
 
@@ -70,8 +96,12 @@ SigOf(r) == IF r.body \in {"next", "exit"} THEN r.body ELSE "none"
 \* element itself (`$`), "memb" that of its member p (`$.p`, false for anything but an object)
 ElemKinds == {"n1", "n0", "s1", "s0", "nul", "o1", "o0", "ar"}   \* number # 0 / 0, string non-empty / empty, null,
                                                               \* object with p truthy / falsy or absent, nested array
-Truth(p, ek) ==
+\* "gv" / "ngv" / "glt" read the program's variable g (-1: unset, which is falsy and smaller than 2: DESIGN.md 3.1, 3.3)
+Truth(p, ek, g) ==
   CASE p = "none" -> TRUE
+    [] p = "gv" -> g > 0
+    [] p = "ngv" -> ~(g > 0)
+    [] p = "glt" -> g < 2
     [] p = "T" -> TRUE
     [] p = "F" -> FALSE
     [] p = "self" -> ek \in {"n1", "s1", "o1", "o0", "ar"}
@@ -107,6 +137,11 @@ CellInputs == <<
   [sels |-> <<1, 1>>, files |-> << << <<A(<<"o0", "o1">>), A(<<"o0", "o1">>)>>, <<A(<<"n1">>), A(<<"n1">>)>> >> >>]
 >>
 
+\* the rule lists run on every input when the selectors take every form: the first and the last of RuleLists
+XRuleLists == {
+  <<R("B", "none", "print"), R("BF", "none", "print"), R("P", "none", "print"), R("EF", "none", "print"), R("E", "none", "print")>>,
+  <<R("EF", "none", "bare"), R("P", "self", "next"), R("EF", "none", "print"), R("P", "none", "print"), R("BF", "none", "print"), R("BF", "none", "print")>>
+}
 RuleLists == {
   <<R("B", "none", "print"), R("BF", "none", "print"), R("P", "none", "print"), R("EF", "none", "print"), R("E", "none", "print")>>,
   <<R("P", "self", "print"), R("E", "none", "print"), R("P", "memb", "next"), R("B", "none", "print"), R("P", "none", "print"), R("B", "none", "print")>>,
@@ -120,11 +155,36 @@ ShapeSet ==
   IF Fam = "sim" THEN {S(k) : k \in ElemKinds \ {"ar"}} \cup {A(<<>>)}
   ELSE {A(<<>>), A(<<"s1">>), A(<<"o1", "n0">>), S("o0"), S("n1"), S("nul")}
 
+\* ---- selector expressions: the root is what the expression evaluates to
+PathForms == {"dot", "idx", "par"}                                  \* `$.k`  `$["k"]`  `($.k)`
+MembForms == {"wrap", "dup"}                                        \* `[$.k]`  `[$.k, $.k]`
+ConstForms == {"empty", "ckey", "cnum", "cnums", "str", "nul", "num"} \* `[]` `["k"]` `[0]` `[1, 2]` `"lit"` `null` `0`
+FormSet == IF SelForms = "all" THEN PathForms \cup MembForms \cup ConstForms ELSE {"dot"}
+\* number of items of an array literal (-1: the form is not an array literal)
+NItems(fm) == CASE fm = "wrap" -> 1 [] fm = "dup" -> 2 [] fm = "empty" -> 0 [] fm = "ckey" -> 1 [] fm = "cnum" -> 1
+                [] fm = "cnums" -> 2 [] OTHER -> -1
+\* a value as an element of an array: its kind
+AsElem(m) == IF m.a THEN "ar" ELSE m.es[1]
+SelRoot(fm, m) ==
+  CASE fm \in PathForms -> m
+    [] fm = "wrap" -> A(<<AsElem(m)>>)
+    [] fm = "dup" -> A(<<AsElem(m), AsElem(m)>>)
+    [] fm = "empty" -> A(<<>>)
+    [] fm = "ckey" -> A(<<"s1">>)
+    [] fm = "cnum" -> A(<<"n0">>)
+    [] fm = "cnums" -> A(<<"n1", "n1">>)
+    [] fm = "str" -> S("s1")
+    [] fm = "nul" -> S("nul")
+    [] fm = "num" -> S("n0")
+RootsOf(mv) == [s \in 1..Len(mv) |-> IF s <= Len(sform) THEN SelRoot(sform[s], mv[s]) ELSE mv[s]]
+RootsAll(ms) == [f \in 1..Len(ms) |-> [v \in 1..Len(ms[f]) |-> RootsOf(ms[f][v])]]
+
 \* selector lists of family "sim": distinct keys, or (with the writing rules) a repeated key / the whole value
 SelLists(ns) ==
   {[s \in 1..ns |-> s]} \cup
-  (IF Alpha = "cells" /\ ns = 2 THEN {<<1, 1>>, <<1, 0>>, <<0, 1>>} ELSE {})
-\* the roots of one value: selectors with the same key select the same thing, the whole value is an object without p
+  (IF Alpha = "cells" /\ ns = 2 THEN {<<1, 1>>, <<1, 0>>, <<0, 1>>} ELSE {}) \cup
+  (IF SelForms = "all" /\ ns = 2 THEN {<<1, 1>>} ELSE {})
+\* what the selectors' paths select from one value: selectors with the same key select the same thing, the whole value is an object without p
 Values(ns) ==
   {val \in [1..(IF ns = 0 THEN 1 ELSE ns) -> ShapeSet] :
      \A s \in 1..Len(sels) :
@@ -140,67 +200,72 @@ Init ==
   /\ Idle
   /\ cstage = "rules"
   /\ paths = <<>>
-  /\ IF Fam \in {"rules", "cells"} THEN nsel = 0 /\ sels = <<>>
-     ELSE nsel \in NSel /\ sels \in SelLists(nsel)
+  /\ mems = <<>>
+  /\ IF Fam \in {"rules", "cells"} THEN nsel = 0 /\ sels = <<>> /\ sform = <<>>
+     ELSE nsel \in NSel /\ sels \in SelLists(nsel) /\ sform \in [1..nsel -> FormSet]
 
 SetCfg(rs, fs, st) ==
   /\ rules' = rs /\ files' = fs /\ cstage' = st
-  /\ UNCHANGED <<part, phase, level, fi, vi, si, ei, ri, tested, signal, dollar, index, file, cell, fw, obs, outcome>>
+  /\ UNCHANGED <<part, phase, level, fi, vi, si, ei, ri, tested, signal, dollar, index, file, cell, fw, obs, outcome, glob>>
+\* the same with the input given by what the selectors' paths select: the roots follow from the forms
+SetCfgM(rs, ms, st) == SetCfg(rs, RootsAll(ms), st) /\ mems' = ms
 
 AddRule ==
   /\ phase = "config" /\ cstage = "rules" /\ Fam \in {"rules", "sim", "cells"} /\ Len(rules) < MaxRules
   /\ \E r \in Alphabet : CanFollow(rules, r) /\ SetCfg(Append(rules, r), files, "rules")
-  /\ UNCHANGED <<nsel, sels, paths>>
+  /\ UNCHANGED <<nsel, sels, paths, sform, mems>>
 PickRules ==
   /\ phase = "config" /\ cstage = "rules" /\ Fam = "inputs" /\ rules = <<>>
-  /\ \E rs \in RuleLists : SetCfg(rs, files, "input")
-  /\ UNCHANGED <<nsel, sels, paths>>
+  /\ \E rs \in (IF SelForms = "all" THEN XRuleLists ELSE RuleLists) : SetCfg(rs, files, "input")
+  /\ UNCHANGED <<nsel, sels, paths, sform, mems>>
 PickInput ==
   /\ phase = "config" /\ Fam = "rules" /\ files = <<>> /\ cstage = "rules"
   /\ \E i \in InputSel : SetCfg(rules, Inputs[i].files, "input") /\ nsel' = Inputs[i].nsel
                           /\ sels' = [s \in 1..Inputs[i].nsel |-> s]
+                          /\ sform' = [s \in 1..Inputs[i].nsel |-> "dot"] /\ mems' = Inputs[i].files
                           /\ paths' = [f \in 1..Len(Inputs[i].files) |-> f]
 PickCellInput ==
   /\ phase = "config" /\ Fam = "cells" /\ files = <<>> /\ cstage = "rules"
   /\ \E i \in InputSel : SetCfg(rules, CellInputs[i].files, "input") /\ nsel' = Len(CellInputs[i].sels)
                           /\ sels' = CellInputs[i].sels
+                          /\ sform' = [s \in 1..Len(CellInputs[i].sels) |-> "dot"] /\ mems' = CellInputs[i].files
                           /\ paths' = [f \in 1..Len(CellInputs[i].files) |-> f]
 AddFile ==
   /\ phase = "config" /\ Fam \in {"inputs", "sim"} /\ Len(files) < MaxFiles
   /\ (Fam = "inputs") => cstage = "input"
-  /\ SetCfg(rules, Append(files, <<>>), "input")
+  /\ SetCfgM(rules, Append(mems, <<>>), "input")
   /\ paths' = Append(paths, NPaths + 1)
-  /\ UNCHANGED <<nsel, sels>>
+  /\ UNCHANGED <<nsel, sels, sform>>
 \* the next file argument names a path that was given before: the same content once more
 RepeatFile ==
   /\ phase = "config" /\ cstage = "input" /\ Fam \in {"inputs", "sim"} /\ Len(files) < MaxFiles
   /\ \E g \in 1..Len(files) :
-        /\ SetCfg(rules, Append(files, files[g]), "input")
+        /\ SetCfgM(rules, Append(mems, mems[g]), "input")
         /\ paths' = Append(paths, paths[g])
-  /\ UNCHANGED <<nsel, sels>>
+  /\ UNCHANGED <<nsel, sels, sform>>
 AddValue ==
   /\ phase = "config" /\ cstage = "input" /\ Fam \in {"inputs", "sim"}
   /\ Len(files) > 0 /\ Len(files[Len(files)]) < MaxVals /\ LastPathFresh
   /\ \E val \in Values(nsel) :
-        SetCfg(rules, [files EXCEPT ![Len(files)] = Append(@, val)], "input")
-  /\ UNCHANGED <<nsel, sels, paths>>
+        SetCfgM(rules, [mems EXCEPT ![Len(mems)] = Append(@, val)], "input")
+  /\ UNCHANGED <<nsel, sels, paths, sform>>
 AddElem ==
   /\ phase = "config" /\ cstage = "input" /\ Fam = "sim"
   /\ Len(files) > 0 /\ Len(files[Len(files)]) > 0 /\ LastPathFresh
   /\ LET f == Len(files) v == Len(files[f]) IN
-     \E s \in 1..Len(files[f][v]) : \E k \in ElemKinds :
-        /\ files[f][v][s].a /\ files[f][v][s].n < MaxArr
+     \E s \in 1..Len(mems[f][v]) : \E k \in ElemKinds :
+        /\ mems[f][v][s].a /\ mems[f][v][s].n < MaxArr
         \* every selector of the same key gets the element
-        /\ SetCfg(rules, [files EXCEPT ![f][v] = [t \in 1..Len(@) |->
+        /\ SetCfgM(rules, [mems EXCEPT ![f][v] = [t \in 1..Len(@) |->
                              IF t = s \/ (t <= Len(sels) /\ s <= Len(sels) /\ sels[t] = sels[s]) THEN A(Append(@[t].es, k)) ELSE @[t]]],
                   "input")
-  /\ UNCHANGED <<nsel, sels, paths>>
+  /\ UNCHANGED <<nsel, sels, paths, sform>>
 Start ==
   /\ phase = "config"
   /\ (Fam = "inputs") => rules # <<>>
   /\ (Fam \in {"rules", "cells"}) => cstage = "input"
   /\ Load(rules, files)
-  /\ UNCHANGED <<nsel, sels, paths>> /\ cstage' = "run"
+  /\ UNCHANGED <<nsel, sels, paths, sform, mems>> /\ cstage' = "run"
 
 \* ---- the run: outcomes supplied from the configuration
 CurRule == rules[part[CurKind][ri]]
@@ -222,7 +287,7 @@ Run ==
   \/ phase = "files" /\ level = "bf" /\ ri <= N("BF") /\ RunBeginFile(SigOf(CurRule), CurW)
   \/ phase = "files" /\ level = "ef" /\ ri <= N("EF") /\ RunEndFile(SigOf(CurRule), CurW)
   \/ phase = "end" /\ ri <= N("E") /\ RunEnd(SigOf(CurRule), CurW)
-  \/ phase = "files" /\ level = "rule" /\ ~tested /\ ri <= N("P") /\ TestPattern(Truth(CurRule.pat, CurElemKind))
+  \/ phase = "files" /\ level = "rule" /\ ~tested /\ ri <= N("P") /\ TestPattern(Truth(CurRule.pat, CurElemKind, glob))
   \/ phase = "files" /\ level = "rule" /\ tested /\ RunBody(SigOf(CurRule), CurW)
 
 \* the end of a run is a legitimate end of the behaviour; every other state without a successor is a deadlock
@@ -231,7 +296,7 @@ Terminated == Fam # "sim" /\ phase = "done" /\ UNCHANGED vars
 
 Next ==
   \/ (AddRule \/ PickRules \/ PickInput \/ PickCellInput \/ AddFile \/ RepeatFile \/ AddValue \/ AddElem \/ Start)
-  \/ (Run /\ UNCHANGED <<nsel, cstage, sels, paths>>)
+  \/ (Run /\ UNCHANGED <<nsel, cstage, sels, paths, sform, mems>>)
   \/ Terminated
 
 Spec == Init /\ [][Next]_vars
@@ -243,17 +308,25 @@ Spec == Init /\ [][Next]_vars
 (* hand on what the next one may still see), cut after the first exit.  Law: *)
 (* the transition system's history equals it at the end of every run.        *)
 
-DEntry(t, r, b, sig, d, x, fb, w, cw, ews, fwv, dopen) ==
-  [t |-> t, r |-> r, b |-> b, sig |-> sig, d |-> d, x |-> x, fb |-> fb, w |-> w, cw |-> cw, ews |-> ews, fwv |-> fwv, dopen |-> dopen]
+DEntry(t, r, b, sig, d, x, fb, w, cw, ews, fwv, dopen, g) ==
+  [t |-> t, r |-> r, b |-> b, sig |-> sig, d |-> d, x |-> x, fb |-> fb, w |-> w, cw |-> cw, ews |-> ews, fwv |-> fwv, dopen |-> dopen, g |-> g]
 
 Ov(ov, w, r) == IF w = "sd" THEN <<"w", r>> ELSE IF w = "sm" THEN <<"p", r>> ELSE ov
 
-\* BEGIN / END rules: every rule has its own null cell, nothing it writes is seen again
-DPlain(k, d) ==
-  LET ps == OfKind(rules, k) IN
-  [j \in 1..Len(ps) |-> DEntry("body", ps[j], TRUE, SigOf(rules[ps[j]]), d, -1, 0, EffW(rules[ps[j]].w, "nul"), NoW, <<>>, 0, FALSE)]
+\* the program's variable g is threaded through EVERYTHING in the order of the run: each big step takes the value
+\* the step before left and hands on its own (no level of the schedule re-binds it)
+RECURSIVE GFold(_, _, _)
+GFold(q, k, g) == IF k > Len(q) THEN g ELSE GFold(q, k + 1, GAfter(g, q[k].w))
 
-\* the tree of one root during its round: st = [root, els, fwv]
+\* BEGIN / END rules from the j-th on: every rule has its own null cell, nothing it writes there is seen again
+RECURSIVE DPlain(_, _, _, _)
+DPlain(k, d, j, g) ==
+  LET ps == OfKind(rules, k) IN
+  IF j > Len(ps) THEN <<>>
+  ELSE LET w == EffW(rules[ps[j]].w, "nul") IN
+       <<DEntry("body", ps[j], TRUE, SigOf(rules[ps[j]]), d, -1, 0, w, NoW, <<>>, 0, FALSE, g)>> \o DPlain(k, d, j + 1, GAfter(g, w))
+
+\* the tree of one root during its round: st = [root, els, fwv, g]
 PristineRoot(f, v, s) == LET root == files[f][v][s] IN IF root.a THEN "ar" ELSE root.es[1]
 IsArr(f, v, s, st) == files[f][v][s].a /\ st.root[1] # "w"
 
@@ -265,58 +338,73 @@ DFileRules(k, j, st, f, v, s) ==
   ELSE LET r == ps[j]
            w == EffW(rules[r].w, EK(PristineRoot(f, v, s), st.root))
            e == DEntry("body", r, TRUE, SigOf(rules[r]), DRoot(f, v, s), -1, f, w, st.root,
-                       (IF IsArr(f, v, s, st) THEN st.els ELSE <<>>), st.fwv, k = "EF" /\ st.root[1] = "w")
+                       (IF IsArr(f, v, s, st) THEN st.els ELSE <<>>), st.fwv, k = "EF" /\ st.root[1] = "w", st.g)
            \* `$ = v` in an ENDFILE rule is the rule's own: the next one is bound to the selected root again
            rest == DFileRules(k, j + 1, [st EXCEPT !.root = (IF k = "EF" /\ w = "sd" THEN @ ELSE Ov(@, w, r)),
-                                                   !.fwv = IF w = "sf" THEN r ELSE @], f, v, s)
+                                                   !.fwv = (IF w = "sf" THEN r ELSE @),
+                                                   !.g = GAfter(@, w)], f, v, s)
        IN [q |-> <<e>> \o rest.q, st |-> rest.st]
 
-\* one round of the pattern rules from the j-th on, on a cell that holds a value of kind pk as read and overlay ov
-RECURSIVE DRound(_, _, _, _, _, _, _)
-DRound(j, ov, fwv, pk, d, x, fb) ==
+\* one round of the pattern rules from the j-th on, on a cell that holds a value of kind pk as read and overlay ov;
+\* every pattern is evaluated when its rule is reached, with g as the bodies before it (of this round too) left it
+RECURSIVE DRound(_, _, _, _, _, _, _, _)
+DRound(j, ov, fwv, pk, d, x, fb, g) ==
   LET ps == OfKind(rules, "P") IN
-  IF j > Len(ps) THEN [q |-> <<>>, ov |-> ov, fwv |-> fwv]
+  IF j > Len(ps) THEN [q |-> <<>>, ov |-> ov, fwv |-> fwv, g |-> g]
   ELSE LET r == ps[j]
            ek == EK(pk, ov)
-           b == Truth(rules[r].pat, ek)
+           b == Truth(rules[r].pat, ek, g)
            sig == SigOf(rules[r])
            w == EffW(rules[r].w, ek)
-           test == DEntry("test", r, b, "none", d, x, fb, "none", ov, <<>>, fwv, FALSE)
-       IN IF ~b THEN LET rest == DRound(j + 1, ov, fwv, pk, d, x, fb) IN [rest EXCEPT !.q = <<test>> \o @]
-          ELSE LET body == DEntry("body", r, TRUE, sig, d, x, fb, w, ov, <<>>, fwv, FALSE)
+           test == DEntry("test", r, b, "none", d, x, fb, "none", ov, <<>>, fwv, FALSE, g)
+       IN IF ~b THEN LET rest == DRound(j + 1, ov, fwv, pk, d, x, fb, g) IN [rest EXCEPT !.q = <<test>> \o @]
+          ELSE LET body == DEntry("body", r, TRUE, sig, d, x, fb, w, ov, <<>>, fwv, FALSE, g)
                    ov2 == Ov(ov, w, r)
                    fw2 == IF w = "sf" THEN r ELSE fwv
-               IN IF sig = "next" THEN [q |-> <<test, body>>, ov |-> ov2, fwv |-> fw2]
-                  ELSE LET rest == DRound(j + 1, ov2, fw2, pk, d, x, fb) IN [rest EXCEPT !.q = <<test, body>> \o @]
+                   g2 == GAfter(g, w)
+               IN IF sig = "next" THEN [q |-> <<test, body>>, ov |-> ov2, fwv |-> fw2, g |-> g2]
+                  ELSE LET rest == DRound(j + 1, ov2, fw2, pk, d, x, fb, g2) IN [rest EXCEPT !.q = <<test, body>> \o @]
 
 \* the rounds of the elements from the e-th on (1-based)
 RECURSIVE DElems(_, _, _, _, _)
 DElems(e, st, f, v, s) ==
   LET root == files[f][v][s] IN
   IF e > root.n THEN [q |-> <<>>, st |-> st]
-  ELSE LET rd == DRound(1, ElOv(st, e), st.fwv, root.es[e], DElem(f, v, s, e - 1), e - 1, f)
-           st2 == IF rd.ov = NoW THEN [st EXCEPT !.fwv = rd.fwv] ELSE [SetEl(st, e, rd.ov) EXCEPT !.fwv = rd.fwv]
+  ELSE LET rd == DRound(1, ElOv(st, e), st.fwv, root.es[e], DElem(f, v, s, e - 1), e - 1, f, st.g)
+           st2 == IF rd.ov = NoW THEN [st EXCEPT !.fwv = rd.fwv, !.g = rd.g] ELSE [SetEl(st, e, rd.ov) EXCEPT !.fwv = rd.fwv, !.g = rd.g]
            rest == DElems(e + 1, st2, f, v, s)
        IN [q |-> rd.q \o rest.q, st |-> rest.st]
 
 \* one root: a fresh tree; fwin = 0, or -1 when an earlier round of the value overwrote $file
-DRoot1(f, v, s, fwin) ==
-  LET bf == DFileRules("BF", 1, [root |-> NoW, els |-> <<>>, fwv |-> fwin], f, v, s)
+DRoot1(f, v, s, fwin, g) ==
+  LET bf == DFileRules("BF", 1, [root |-> NoW, els |-> <<>>, fwv |-> fwin, g |-> g], f, v, s)
       pr == IF IsArr(f, v, s, bf.st) THEN DElems(1, bf.st, f, v, s)
-            ELSE LET rd == DRound(1, bf.st.root, bf.st.fwv, PristineRoot(f, v, s), DRoot(f, v, s), -1, f)
-                 IN [q |-> rd.q, st |-> [bf.st EXCEPT !.root = rd.ov, !.fwv = rd.fwv]]
+            ELSE LET rd == DRound(1, bf.st.root, bf.st.fwv, PristineRoot(f, v, s), DRoot(f, v, s), -1, f, bf.st.g)
+                 IN [q |-> rd.q, st |-> [bf.st EXCEPT !.root = rd.ov, !.fwv = rd.fwv, !.g = rd.g]]
       ef == DFileRules("EF", 1, pr.st, f, v, s)
-  IN [q |-> bf.q \o pr.q \o ef.q, fwv |-> ef.st.fwv]
+  IN [q |-> bf.q \o pr.q \o ef.q, fwv |-> ef.st.fwv, g |-> ef.st.g]
 
-RECURSIVE DSels(_, _, _, _)
-DSels(s, fwin, f, v) ==
-  IF s > Len(files[f][v]) THEN <<>>
-  ELSE LET one == DRoot1(f, v, s, fwin) IN one.q \o DSels(s + 1, (IF one.fwv = 0 THEN 0 ELSE -1), f, v)
+RECURSIVE DSels(_, _, _, _, _)
+DSels(s, fwin, f, v, g) ==
+  IF s > Len(files[f][v]) THEN [q |-> <<>>, g |-> g]
+  ELSE LET one == DRoot1(f, v, s, fwin, g)
+           rest == DSels(s + 1, (IF one.fwv = 0 THEN 0 ELSE -1), f, v, one.g)
+       IN [q |-> one.q \o rest.q, g |-> rest.g]
+
+RECURSIVE DVals(_, _, _)
+DVals(v, f, g) ==
+  IF v > Len(files[f]) THEN [q |-> <<>>, g |-> g]
+  ELSE LET one == DSels(1, 0, f, v, g) rest == DVals(v + 1, f, one.g) IN [q |-> one.q \o rest.q, g |-> rest.g]
+
+RECURSIVE DFiles(_, _)
+DFiles(f, g) ==
+  IF f > Len(files) THEN [q |-> <<>>, g |-> g]
+  ELSE LET one == DVals(1, f, g) rest == DFiles(f + 1, one.g) IN [q |-> one.q \o rest.q, g |-> rest.g]
 
 DAll ==
-  DPlain("B", DOpen)
-  \o FlattenSeq([f \in 1..Len(files) |-> FlattenSeq([v \in 1..Len(files[f]) |-> DSels(1, 0, f, v)])])
-  \o DPlain("E", DNull)
+  LET b == DPlain("B", DOpen, 1, -1)
+      fs == DFiles(1, GFold(b, 1, -1))
+  IN b \o fs.q \o DPlain("E", DNull, 1, fs.g)
 
 DCut(q) ==
   LET X == {k \in 1..Len(q) : q[k].sig = "exit"} IN
@@ -331,21 +419,42 @@ Proj(a) ==
          (IF a.k \in {"BF", "P", "EF"} THEN a.fb ELSE 0),
          a.w, a.cw, a.ews,
          (IF a.k \in {"BF", "P", "EF"} THEN a.fw ELSE 0),
-         a.dopen)
+         a.dopen, a.g)
 
 DenoteLaw == phase = "done" => [k \in 1..Len(obs) |-> Proj(obs[k])] = Denote
 
 \* selectors: every value has one root per selector (one without selectors)
 ShapeLaw ==
-  \A f \in 1..Len(files) : \A v \in 1..Len(files[f]) :
-     /\ Len(files[f][v]) = (IF nsel = 0 THEN 1 ELSE nsel)
-     /\ \A s \in 1..Len(files[f][v]) :
-          LET root == files[f][v][s] IN
-          IF root.a THEN root.n = Len(root.es) ELSE root.n = -1 /\ Len(root.es) = 1 /\ root.es[1] # "ar"
-     /\ Len(sels) = nsel
-     /\ \A s \in 1..nsel :
-          /\ sels[s] = 0 => files[f][v][s] = S("o0")
-          /\ \A t \in 1..nsel : sels[s] = sels[t] => files[f][v][s] = files[f][v][t]
+  /\ Len(sels) = nsel /\ Len(sform) = nsel
+  /\ \A s \in 1..nsel : sform[s] \in FormSet
+  /\ Len(mems) = Len(files)
+  /\ \A f \in 1..Len(files) :
+     /\ Len(mems[f]) = Len(files[f])
+     /\ \A v \in 1..Len(files[f]) :
+       /\ Len(files[f][v]) = (IF nsel = 0 THEN 1 ELSE nsel)
+       /\ Len(mems[f][v]) = Len(files[f][v])
+       /\ \A s \in 1..Len(files[f][v]) :
+            /\ LET root == files[f][v][s] IN
+               IF root.a THEN root.n = Len(root.es) ELSE root.n = -1 /\ Len(root.es) = 1 /\ root.es[1] # "ar"
+            /\ LET m == mems[f][v][s] IN
+               IF m.a THEN m.n = Len(m.es) ELSE m.n = -1 /\ Len(m.es) = 1 /\ m.es[1] # "ar"
+       /\ \A s \in 1..nsel :
+            /\ sels[s] = 0 => mems[f][v][s] = S("o0")
+            /\ \A t \in 1..nsel : sels[s] = sels[t] => mems[f][v][s] = mems[f][v][t]
+
+\* selector expressions: a path hands the driver what it selects; an array literal of n items is an array root of
+\* exactly n elements whatever its items are (an item that is itself an array is ONE element, never spliced, and the
+\* literal is never read as an index into the value); a scalar literal is a root that is not an array.  With
+\* ElementMultiplicity: the pattern rules run once per ITEM of the literal
+FormLaw ==
+  \A f \in 1..Len(files) : \A v \in 1..Len(files[f]) : \A s \in 1..nsel :
+    LET root == files[f][v][s] m == mems[f][v][s] fm == sform[s] IN
+    /\ fm \in PathForms => root = m
+    /\ NItems(fm) >= 0 => root.a /\ root.n = NItems(fm)
+    /\ fm \in MembForms => \A e \in 1..root.n : root.es[e] = (IF m.a THEN "ar" ELSE m.es[1])
+    /\ fm \in {"str", "nul", "num"} => ~root.a
+\* ... and without selectors the root is the value
+NoSelLaw == nsel = 0 => files = mems
 
 \* ---- file arguments and paths: one path per argument, numbered by first occurrence; the same path is the same content
 PathLaw ==
@@ -361,8 +470,11 @@ ActsOfFile(f) == SelectSeq(obs, LAMBDA a : a.pos[1] = 1 /\ a.pos[2] = f)
 Unplaced(a) == [t |-> a.t, k |-> a.k, r |-> a.r, b |-> a.b, sig |-> a.sig, dt |-> a.d.t, dv |-> a.d.v, ds |-> a.d.s, de |-> a.d.e,
                 x |-> (IF a.d.t = "elem" THEN a.x ELSE -1),     \* $index outside an array round is left open
                 pos |-> SubSeq(a.pos, 3, 8), w |-> a.w, cw |-> a.cw, ews |-> a.ews, fw |-> a.fw, en |-> a.en, dopen |-> a.dopen]
+\* (a program whose patterns read its own variable carries state from one file to the next: the law is about the
+\* schedule, and is stated for the programs whose activations are a function of the input alone)
+ReadsGlobal == \E i \in 1..Len(rules) : rules[i].pat \in {"gv", "ngv", "glt"}
 OccurrenceLaw ==
-  (ObsKeep = 0 /\ phase = "done" /\ ~Exited) =>
+  (ObsKeep = 0 /\ phase = "done" /\ ~Exited /\ ~ReadsGlobal) =>
     \A f \in 1..Len(paths) : \A g \in (f + 1)..Len(paths) :
       paths[f] = paths[g] =>
         LET qa == ActsOfFile(f) qb == ActsOfFile(g) IN
@@ -380,7 +492,10 @@ Bodies == SelectSeq(obs, LAMBDA a : a.t = "body")
 Vec ==
   phase = "done" =>
     Emit([rules |-> [i \in 1..Len(rules) |-> <<rules[i].kind, rules[i].pat, rules[i].body, rules[i].w>>],
-          nsel |-> nsel, sels |-> sels, paths |-> paths,
+          nsel |-> nsel, sels |-> sels, paths |-> paths, sform |-> sform,
+          mems |-> [f \in 1..Len(mems) |-> [v \in 1..Len(mems[f]) |-> [s \in 1..Len(mems[f][v]) |->
+                       [a |-> mems[f][v][s].a, es |-> mems[f][v][s].es]]]],
+          gs |-> [k \in 1..Len(Bodies) |-> Bodies[k].g],
           files |-> [f \in 1..Len(files) |-> [v \in 1..Len(files[f]) |-> [s \in 1..Len(files[f][v]) |->
                        [a |-> files[f][v][s].a, es |-> files[f][v][s].es]]]],
           lines |-> [k \in 1..Len(Bodies) |->
